@@ -17,7 +17,7 @@
    whose error is returned after an optional clean-up program.
 
    Only definitions here; proofs are in Generic.v / Proofs.v. *)
-From XV Require Import lib.Bytes gen.NegTables.
+From XV Require Import lib.Bytes gen.NegTables gen.C04Facts.
 
 (* ------------------------------------------------------------------ bits *)
 
@@ -208,15 +208,29 @@ Fixpoint feed {A} (ts : list tok) (p : prog A) : prog A :=
 
 Inductive fault := FNone | FCut (k : nat) | FTransient (k : nat).
 
+(* The class of the error a failing operation returns. The library does not look at it: every
+   class ends the step in the same way (gen/C04Facts.v negsession_keeps_step_error pins that
+   negotiateSession does not replace a step's error, e.g. a timeout by a nil ctx.Err()); it is
+   part of the plan so that the theorems are stated for every class. *)
+Inductive eclass := CGeneric | CEOF | CUnexpectedEOF | CTimeout | CTemporary | CWrapped.
+
 Record plan := mkPlan {
   p_fault : fault;
+  p_class : eclass;       (* what kind of error the failing operations return *)
   p_cancel : option nat;  (* the context is cancelled at operation c: *)
   p_entry : bool;         (*   true: when c is entered or while it is blocked; false: when it has succeeded *)
   p_deadline : bool;      (* the transport has deadlines: session.go's setDeadline keeps the deadline
                              expired from the cancellation on, so every operation after it fails
                              (and operation c itself when it had not completed) *)
+  p_ctx_deadline : bool;  (* shape of the context: it carries a deadline of its own (WithTimeout /
+                             WithDeadline, cancelled early or expiring by itself) *)
   p_hs_ok : bool          (* the TLS handshake succeeds when nothing is injected *)
 }.
+
+(* session.go setDeadline watches ctx.Done() for a context of this shape (it does for every
+   shape: gen/C04Facts.v, read from the source) *)
+Definition watched (pl : plan) : bool :=
+  if p_ctx_deadline pl then setdeadline_watcher_unconditional else true.
 
 Definition fault_fail (f : fault) (i : nat) : bool :=
   match f with
@@ -227,7 +241,7 @@ Definition fault_fail (f : fault) (i : nat) : bool :=
 
 Definition cancel_fail (pl : plan) (i : nat) : bool :=
   match p_cancel pl with
-  | Some c => p_deadline pl && ((c <? i) || ((i =? c) && p_entry pl))
+  | Some c => p_deadline pl && watched pl && ((c <? i) || ((i =? c) && p_entry pl))
   | None => false
   end.
 
